@@ -31,7 +31,7 @@ def sliding_windows(
     n_cols = kernel_output_size
 
     result = np.empty((n_rows, n_cols), dtype=kernel_output_dtype)
-    if sample.shape[0] < width:
+    if sample.shape[0] < width or np.any(sample != np.arange(width)):
         for i in range(n_rows):
             result[i] = kernel(sequence[i * stride : i * stride + width][sample])
             # result[i] = np.asarray(
